@@ -339,6 +339,25 @@ pub fn c12() -> Outcome {
             }
         }
     } }
+    // wide ranges (up to the quantifier's |l|, |u| <= 2^20, i.e. widths up to 2^21) through the complete-sequence criterion: with the coefficients sorted ascending,
+    // c_1 = 1 and c_{k+1} <= 1 + c_1 + ... + c_k  <=>  the subset sums are exactly 0 ..= sum(c); then constant = lo and sum(c) = up - lo give exactly lo ..= up
+    {
+        let mut wide: Vec<(f64, f64)> = vec![];
+        for k in 5..=21u32 { let w = 2f64.powi(k as i32); for dw in [-1.0, 0.0, 1.0] { let w = w + dw; if w <= 2f64.powi(21) { let l = -(w / 2.0).floor(); wide.push((l, l + w)); if w <= 2f64.powi(20) { wide.push((0.0, w)); wide.push((-w, 0.0)); wide.push((3.0 - 0.5, 3.0 + w + 0.25)); } } } }
+        wide.push((-1048576.0, 1048576.0)); wide.push((-1048575.5, 1048575.5)); wide.push((-1048576.0, 1048575.0)); wide.push((1.0, 1048576.0));
+        for (wi, (l, u)) in wide.iter().enumerate() {
+            n += 1; d.insert((1000 + wi, 0));
+            let mut i = inst(vec![dv(7, Kind::Continuous, None), dv(3, Kind::Integer, Some((*l, *u)))], Function::default(), vec![]);
+            let (lo, up) = (l.ceil(), u.floor());
+            let enc = match i.log_encode(3) { Ok(e) => e, Err(e) => return Outcome { cases: n, distinct: d.len(), fail: Some(format!("log_encode failed ({e}) for the integer range [{l}, {u}]")) } };
+            let mut cs: Vec<f64> = enc.terms.iter().map(|t| t.coefficient).collect(); cs.sort_by(|a, b| a.partial_cmp(b).unwrap());
+            let mut sum = 0.0; let mut complete = cs.iter().all(|c| *c >= 1.0 && c.fract() == 0.0);
+            for c in &cs { if *c > sum + 1.0 { complete = false; } sum += c; }
+            if !complete || enc.constant != lo || enc.constant + sum != up {
+                return Outcome { cases: n, distinct: d.len(), fail: Some(format!("range [{l}, {u}] (integers {lo} ..= {up}): the encoding {} + subset sums of {cs:?} does not take exactly these values (complete-sequence criterion: every coefficient a positive integer, each at most 1 + the sum of the smaller ones; total {} expected {})", enc.constant, sum, up - lo)) };
+            }
+        }
+    }
     // error conditions
     for (what, mut i, id) in [
         ("unknown id", inst(vec![dv(3, Kind::Integer, Some((0.0, 3.0)))], Function::default(), vec![]), 4u64),
@@ -444,6 +463,44 @@ pub fn c14() -> Outcome {
                 if end.0 != base.0 || end.2 != base.2 || end.1 != base.1 { return Outcome { cases: n, distinct: d.len(), fail: Some(format!("values ({va}, {vb}): relax + restore of constraint {which} changed the evaluation: {base:?} -> {end:?}")) }; }
             }
         } }
+    }
+    // several samples at once (evaluate_samples): per-sample feasibility, relaxed feasibility and constraint values before a relax, after it and after the restore
+    // (which changes the ORDER of the active list), and each sample agrees with evaluate on its own state
+    {
+        let i0 = inst(vec![dv(0, Kind::Continuous, Some((-10.0, 10.0))), dv(1, Kind::Continuous, Some((-10.0, 10.0)))], f_of(F::Linear(lin(&[(0, 1.0), (1, 1.0)], 0.0))),
+            vec![con(1, Equality::LessThanOrEqualToZero, f_of(F::Linear(lin(&[(0, 1.0)], -1.0)))), con(2, Equality::LessThanOrEqualToZero, f_of(F::Linear(lin(&[(0, -1.0)], -1.0)))), con(3, Equality::EqualToZero, f_of(F::Linear(lin(&[(1, 1.0)], 0.0))))]);
+        let sts: Vec<(u64, Vec<(u64, f64)>)> = vec![(10, vec![(0, 5.0), (1, 0.0)]), (4, vec![(0, -5.0), (1, 0.0)]), (7, vec![(0, 0.0), (1, 0.0)]), (30, vec![(0, 0.0), (1, 2.0)]), (2, vec![(0, 5.0), (1, 2.0)])];
+        type Row = (bool, bool, Vec<(u64, f64)>);
+        let table = |i: &Instance, ids: &[usize]| -> Result<Vec<(u64, Row)>, String> {
+            let mut samples = v1::Samples::default();
+            for k in ids { samples.add_sample(sts[*k].0, state(&sts[*k].1)); }
+            let (ss, _) = i.evaluate_samples(&samples).map_err(|e| format!("evaluate_samples failed: {e}"))?;
+            let mut out = vec![];
+            for k in ids {
+                let sid = sts[*k].0;
+                let fa = *ss.feasible_unrelaxed().get(&sid).ok_or(format!("no feasibility entry for sample {sid}"))?; let fr = *ss.feasible_relaxed().get(&sid).ok_or(format!("no relaxed feasibility entry for sample {sid}"))?;
+                let mut vs: Vec<(u64, f64)> = vec![]; for c in &ss.constraints { vs.push((c.id, c.evaluated_values.as_ref().and_then(|v| v.get(sid)).ok_or(format!("constraint {} has no value for sample {sid}", c.id))?)); } vs.sort_by_key(|x| x.0);
+                // the same state through evaluate
+                let (sol, _) = i.evaluate(&state(&sts[*k].1)).map_err(|e| format!("evaluate failed: {e}"))?;
+                let mut ws: Vec<(u64, f64)> = sol.evaluated_constraints.iter().map(|c| (c.id, c.evaluated_value)).collect(); ws.sort_by_key(|x| x.0);
+                if sol.feasible != fa || sol.feasible_relaxed != Some(fr) || ws != vs { return Err(format!("sample {sid} (state {:?}) among samples {:?}: evaluate_samples says feasible {fa} relaxed {fr} values {vs:?}, evaluate on the same state says feasible {} relaxed {:?} values {ws:?}", sts[*k].1, ids.iter().map(|k| sts[*k].0).collect::<Vec<_>>(), sol.feasible, sol.feasible_relaxed)); }
+                out.push((sid, (fa, fr, vs)));
+            }
+            Ok(out)
+        };
+        for (gi, ids) in [vec![0usize, 1, 2], vec![2, 0, 1, 3], vec![1, 4, 3, 0, 2], vec![3, 2], vec![0]].iter().enumerate() {
+            n += 1; d.insert(vec![(false, 3000 + gi as u64)]);
+            let base = match table(&i0, ids) { Ok(t) => t, Err(e) => return Outcome { cases: n, distinct: d.len(), fail: Some(e) } };
+            for which in [1u64, 2, 3] {
+                let mut i = i0.clone();
+                i.relax_constraint(which, "r".to_string(), HashMap::new()).unwrap();
+                let mid = match table(&i, ids) { Ok(t) => t, Err(e) => return Outcome { cases: n, distinct: d.len(), fail: Some(format!("after relaxing constraint {which}: {e}")) } };
+                for (b, m) in base.iter().zip(mid.iter()) { if b.1 .0 != m.1 .0 || b.1 .2 != m.1 .2 { return Outcome { cases: n, distinct: d.len(), fail: Some(format!("sample {}: relaxing constraint {which} changed feasible {} -> {} or the constraint values {:?} -> {:?}", b.0, b.1 .0, m.1 .0, b.1 .2, m.1 .2)) }; } }
+                i.restore_constraint(which).unwrap();
+                let end = match table(&i, ids) { Ok(t) => t, Err(e) => return Outcome { cases: n, distinct: d.len(), fail: Some(format!("after relax + restore of constraint {which}: {e}")) } };
+                if end != base { return Outcome { cases: n, distinct: d.len(), fail: Some(format!("relax + restore of constraint {which} changed the sample table {base:?} -> {end:?}")) }; }
+            }
+        }
     }
     // a state that gives no value to a variable of a constraint: whatever evaluate answers (an error) it answers before the relax, after it and after the restore;
     // and a variable that only a relaxed constraint mentions is treated like any other (values / feasibility of the relaxed constraint included)
